@@ -132,8 +132,18 @@ def run_case(case):
         sink = []
         base["sink"] = sink
 
+        def tname(v):
+            return {str: "str", int: "int", bool: "bool", type(None): "none"}.get(type(v), type(v).__name__)
+
         async def handler(call):
-            sink.append(canon({k: v for k, v in call.data.items()}))
+            # records exactly what arrives: every data item with the type and text of its value, and whether the
+            # call ran under the script's Context; "done" tells whether the caller waited (see vf.sinkdone)
+            rec = {"data": [{"k": k, "t": tname(v), "v": str(v)} for k, v in sorted(call.data.items())],
+                   "ctx": call.context.id == "vfctx", "done": False}
+            sink.append(rec)
+            await asyncio.sleep(0)
+            await asyncio.sleep(0)
+            rec["done"] = True
             return {"ok": "1"}
         hass.services.async_register("vt", "sink", handler, supports_response=SupportsResponse.OPTIONAL)
         for x in ENT:
@@ -171,7 +181,7 @@ def run_case(case):
             data = canon({k2: str(v) for k2, v in kw.items()})
             rec.append({"g": gen, "k": k, "x": x, "data": data})
             return data
-        Function.register({"vf.rc": rc})
+        Function.register({"vf.rc": rc, "vf.sinkdone": lambda: bool(base["sink"] and base["sink"][-1]["done"])})
 
         state = {"unloaded": False, "nset": 0, "mtime": 2000, "cell": None}
 
@@ -338,17 +348,25 @@ def run_case(case):
                     res = {"k": "err", "g": 0, "data": "-"}
             elif k == "out":
                 kws = []
-                for key, v in [p.split("=", 1) for p in a["give"].split(",")]:
-                    kws.append("%s=%s" % (key, v if v in ("True", "False") else repr(v)))
+                for kw in a["give"]:
+                    val = {"str": repr(kw["v"]), "int": kw["v"], "bool": kw["v"], "none": "None",
+                           "ctx": "Context(id=%r)" % kw["v"]}[kw["t"]]
+                    kws.append("%s=%s" % (kw["k"], val))
                 del base["sink"][:]
-                if a["form"] == "name":
-                    src = "vf_o = vt.sink(%s)\n" % ", ".join(kws)
-                else:
-                    src = 'vf_o = service.call("vt", "sink", %s)\n' % ", ".join(kws)
+                call = "vt.sink(%s)" if a["form"] == "name" else 'service.call("vt", "sink", %s)'
+                # vf_b: had the service finished when the call returned (= the caller waited: blocking)
+                src = "from homeassistant.core import Context\nvf_o = %s\nvf_b = vf.sinkdone()\n" % (call % ", ".join(kws))
                 await ex(a["c"], src)
+                sym = GlobalContextMgr.get(CTXNAME[a["c"]]).global_sym_table
+                vf_o, vf_b = sym.get("vf_o"), sym.get("vf_b")
                 await quiesce()
                 got = list(base["sink"])
-                res = {"k": "out", "g": 0, "data": got[0] if len(got) == 1 else "calls:%d" % len(got)}
+                if len(got) == 1:
+                    res = {"k": "out", "g": 0, "data": "-",
+                           "o": {"data": got[0]["data"], "ctx": bool(got[0]["ctx"]), "blk": bool(vf_b),
+                                 "rsp": vf_o == {"ok": "1"}}}
+                else:
+                    res = {"k": "calls:%d" % len(got), "g": 0, "data": "-"}
             else:
                 raise ValueError(k)
             return res
@@ -375,6 +393,7 @@ def run_case(case):
             obs = dict(t2)
             obs["runs"] = sorted(rec, key=lambda r: (r["g"], r["k"], r["x"], r["data"]))
             del rec[:]
+            res.setdefault("o", {"data": [], "ctx": False, "blk": False, "rsp": False})
             obs["res"] = res
             obs["base"] = baseline()
             out["steps"].append({"act": a, "obs": obs})
@@ -484,7 +503,26 @@ DECL_POOL = [
     {"st": ["c"], "ev": ["e1", "e2"], "tt": ["shutdown", "timer"], "svc": [], "resp": "none", "sf": "stack"},
     {"st": ["b", "b.old", "c"], "ev": [], "tt": ["startup"], "svc": [], "resp": "none", "sf": "stack"},
 ]
-OUT_GIVE = ["p=1", "p=2,q=x", "p=1,blocking=True", "return_response=False,p=2,q=x", "blocking=False"]
+def kw(k, t, v):
+    return {"k": k, "t": t, "v": v}
+
+
+# keyword sets of outgoing calls (= OutGives of Lifecycle.tla, each sorted by name): ordinary parameters, call
+# options of the qualifying type (Context / bool), and parameters merely NAMED like call options
+OUT_GIVE = [
+    [kw("p", "str", "1")],
+    [kw("p", "str", "2"), kw("q", "str", "x")],
+    [kw("blocking", "bool", "True"), kw("p", "str", "1")],
+    [kw("p", "str", "2"), kw("q", "str", "x"), kw("return_response", "bool", "False")],
+    [kw("blocking", "bool", "False")],
+    [kw("context", "str", "evening"), kw("level", "int", "3")],
+    [kw("blocking", "str", "later"), kw("p", "str", "1")],
+    [kw("blocking", "int", "0"), kw("context", "none", "None"), kw("return_response", "int", "3")],
+    [kw("context", "ctx", "vfctx"), kw("p", "str", "1")],
+    [kw("blocking", "bool", "True"), kw("context", "ctx", "vfctx"), kw("return_response", "bool", "True"), kw("x", "int", "1")],
+    [kw("return_response", "str", "no"), kw("x", "int", "1")],
+    [kw("blocking", "none", "None"), kw("return_response", "bool", "True")],
+]
 
 
 def gen_random(r, nsteps, ctxs, mask):
@@ -817,6 +855,12 @@ def selftest(ctx, accepted_cases, want=24):
             c2["id"] = "corrupt-result/" + c["id"]
             c2["steps"][idx[0]]["obs"]["res"]["g"] += 1
             bad.append(c2)
+        idx = [i for i, s in enumerate(steps) if s["obs"]["res"]["k"] == "out" and s["obs"]["res"]["o"]["data"]]
+        if idx:
+            c2 = copy.deepcopy(slim(c))
+            c2["id"] = "corrupt-outdata/" + c["id"]
+            c2["steps"][idx[-1]]["obs"]["res"]["o"]["data"].pop()
+            bad.append(c2)
         i = r.randrange(len(steps))
         c2 = copy.deepcopy(slim(c))
         c2["id"] = "corrupt-table/" + c["id"]
@@ -872,6 +916,8 @@ def witnesses():
     w.append(("multiarg", ["dm"], [
         {"a": "define", "c": "c1", "n": "f", "d": D(ev=["e1"], svc=["s1", "s2"], sf="args"), "g": 1},
         {"a": "call", "s": "s1", "data": "-", "rr": False}, {"a": "fire", "e": "e1"}]))
+    w.append(("out", ["dm", "legacy"],
+              [{"a": "out", "c": "c1", "form": f, "give": g} for g in OUT_GIVE for f in ("name", "call")]))
     cases = []
     for name, subs, acts in w:
         for sub in subs:
@@ -1037,7 +1083,8 @@ def main_common(ctx, prop, mc_jobs, sim_consts, pool, sizes):
     byid = {c["id"]: c for c in done}
     accepted, rejections = validate(
         ctx, done, "main",
-        beside=lambda acc: selftest(ctx, [byid[i] for i in acc if len(byid[i]["steps"]) >= 4][:12]))
+        beside=lambda acc: selftest(ctx, sorted([byid[i] for i in acc if len(byid[i]["steps"]) >= 4],
+                                                key=lambda c: not c["id"].startswith("w/out"))[:12]))
     acc_cases = [byid[i] for i in accepted]
     ctx.cov["phase_wall_s"] = {"model_checking_and_simulation": round(t_gen - ctx.t0, 1), "execution_on_real_code": round(t_exec - t_gen, 1),
                                "trace_validation": round(time.time() - t_exec, 1)}
